@@ -1,2 +1,17 @@
 # Spec-level unit (no extracted code): lifts the per-kind contracts to values nested to any depth.
-UNIT = dict(name="wiremodel", prelude=["wire_model.rs"], items=[], globals=[])
+# Length prefixes and variant indices are concrete: enc (specs/varint.rs) and the bit-form decoders dec_u64 / dec_u32 of the
+# devarint unit, with the proved round-trip lemmas (devarint.roundtrip_lemmas) in place of the former hyp_len_* hypotheses.
+import importlib.util as _ilu, os as _os
+_sp = _ilu.spec_from_file_location('devarint', _os.path.join(_os.path.dirname(_os.path.abspath(__file__)), 'devarint.py'))
+devarint = _ilu.module_from_spec(_sp)
+_sp.loader.exec_module(devarint)
+
+UNIT = dict(
+    name="wiremodel",
+    uses=["use vstd::arithmetic::div_mod::*;"],
+    prelude=["varint.rs", "wire_model.rs"],
+    items=[dict(kind="raw", name="<varint-dec-spec-and-roundtrip>", obls=["spec:devarint"],
+                text="pub enum DecRes<T> { Ok(T, int), End, Bad }\n"
+                     + "".join(devarint.spec_for(n, b) + devarint.roundtrip_lemmas(n, b) for n, b in [("u32", 32), ("u64", 64)]))],
+    globals=["global size_of usize == 8;"],
+)
